@@ -467,7 +467,7 @@ func (r *runner) runCase(c *caseT) {
 	}
 	r.emit(tr.M{"ev": "Reset", "run": r.runSeq, "scn": sc.Name, "sc": c.Sc, "ops": ops, "pre": observeFull(n, lo, hi), "crashes": crashes,
 		"oldtip": int64(sc.Old.tip), "forkat": int64(sc.ForkAt), "end": int64(sc.End), "src": c.Src, "predicted": broken,
-		"chainOld": chainRecs(sc.Old, lo, hi), "chainNew": chainRecs(sc.Target, lo, hi), "retain": state.MaxSavedStatesCount,
+		"chainOld": chainRecs(sc.Old, lo, hi), "chainNew": chainRecs(sc.Target, lo, hi), "retain": state.MaxSavedStatesCount, "mretain": c.Retain,
 		"ref": sc.ref.final, "refLedger": sc.ref.ledger})
 
 	pending := append([]crashPt(nil), c.Crashes...)
@@ -641,7 +641,9 @@ func main() {
 	cases := flag.String("cases", "", "crash cases (ndjson, TLC export)")
 	enum := flag.Int("enum", 0, "seeded enumeration: number of extra scenarios whose every write index is crashed")
 	dbl := flag.Int("double", 0, "seeded enumeration: random double-crash schedules per enumerated scenario")
-	shard := flag.String("shard", "0/1", "k/n: run the cases with index = k mod n")
+	shard := flag.String("shard", "0/1", "k/n: run the scenario groups of the case file (and the enumerated scenarios) with index = k mod n")
+	eshard := flag.String("enumshard", "", "k/n: run the enumerated scenarios with index = k mod n (default: as -shard)")
+	nosweep := flag.Bool("nosweep", false, "do not crash the write positions no schedule addresses")
 	verbose := flag.Bool("v", false, "print scenarios")
 	prof := flag.String("cpuprofile", "", "write a CPU profile")
 	flag.Parse()
@@ -703,6 +705,9 @@ func main() {
 		r.runCase(c)
 	}
 	for _, c0 := range order {
+		if *nosweep {
+			break
+		}
 		sc := r.scenario(c0.Sc, c0.Retain)
 		occ := map[string]int{}
 		for i, k := range sc.ref.kinds {
@@ -715,7 +720,14 @@ func main() {
 		}
 	}
 	if *enum > 0 {
-		r.enumerate(*enum, *dbl, shardK, shardN)
+		ek, en := shardK, shardN
+		if *eshard != "" {
+			fmt.Sscanf(*eshard, "%d/%d", &ek, &en)
+			if en < 1 {
+				en = 1
+			}
+		}
+		r.enumerate(*enum, *dbl, ek, en)
 	}
 	r.out.Close()
 	var st []string
